@@ -1,6 +1,7 @@
 import Mp4ff.Model.AvcSps
 import Mp4ff.Lemmas.C15
 import Mp4ff.Props.C15b
+import Mp4ff.Expect.Transcribed
 /-!
 # C15 — parameter sets and slice headers parse to the values that were coded
 Property theorems about the bitstream-syntax DSL (`Model/BitSyn.lean`) and the AVC sequence parameter set written in
@@ -53,5 +54,10 @@ def dimsCounterexample : Trace :=
 theorem dims_counterexample :
     dimsCounterexample.nat "frame_mbs_only_flag" ≤ 1 ∧ dims dimsCounterexample = some (158, 158) ∧
       stdDims dimsCounterexample = some (159, 159) := by decide
+
+/-- the Go functions the models of this property transcribe (committed table `spec/transcribed.json`, checked against
+    the current source by the extractor on every run) all still exist -/
+theorem model_sources_exist :
+    (["AvcPps.lean", "AvcSlice.lean", "AvcSps.lean", "Bits.lean", "HevcPps.lean", "HevcSlice.lean", "HevcSps.lean", "Sei.lean"] : List String).all Mp4ff.Expect.presentFor = true := by decide +kernel
 
 end Mp4ff.AvcSps.C15
